@@ -1,24 +1,39 @@
 """C01 - dictable behaves as a rectangular list of records.
 
-Representation invariant  wf(d, n): every column is a list of length n.  Functions under contract (real source):
+Representation invariant  wf(d, n): every column is a list of length n (pyvc/th_tables.py); records, lists of records, plain dicts of columns and the
+constructor live in pyvc/th_tables2.py.  Functions under contract (real source, re-read on every run):
   dictable.__setitem__   fits / first column of an empty table / length-1 broadcast keep wf; a misfit raises ValueError before anything is stored
-  dictable.__len__, shape
-  dictable.get           the column, or `[default] * len(self)`
-  dictable.__getitem__   integer row access: d[i][c] == d[c][i] for every column c (row = dict comprehension over the columns)
-Callee contracts: lens (proved on its body in C19), _value / as_list identity on lists (C19).
-Everything else named in the property (construction forms, masks, integer lists, slices, concat, relabel, do, derived columns, whole
-operation histories, operands unchanged) is covered by the bounded stand-in rac/C01.py only.
+  dictable.__len__, shape, get (the column, or `[default] * len(self)`)
+  dictable.__iter__      (generator: the loop appends every yielded value to a ghost list) one Dict per row, in order, column -> cell
+  dictable.__getitem__   int: d[i][c] == d[c][i];  list of booleans (one per row; also the empty list): all columns, count_true(mask) rows, the row of true
+                         entry i at position count_true(mask, i) - with the induction lemmas about count_true: exactly the rows whose entry is true, in order
+                         (this is the MASK contract of C06);  slice: every column cut by the same slice, row j of the result is one table row in every column;
+                         column name: the stored column / KeyError;  tuple of 1..3 names: the list of the rows' key tuples (the projection _listby takes as
+                         callee contract);  list of names: exactly these columns, as they were (through dictattr.__getitem__ and the keyword constructor)
+  dictable.__init__      with _data_columns_as_dict, _value, as_list inlined: from a dict of equally long lists, from keyword columns, from ([], column names),
+                         from a list of records (dict_concat by contract), from nothing
+  dict_concat            whole body: no record, one record, records with one key set (sorted items / transpose / zip), several key sets (union, d.get)
+  dictattr.__delitem__, dictable.__delattr__, dictattr.__sub__   the named column goes, the others are untouched, the table stays rectangular
+  dictable.__add__ / concat for two tables   union of the columns, rows of the left operand then of the right one, in order, None for a column an operand lacks
+  dictable.update        loop over __setitem__ with the invariant "keys passed are stored, the rest is as before" (values that fit)
+Callee contracts: lens, zipper, as_list on lists (proved in C19); __setitem__ inside update, __iter__ / the constructor / dict_concat / dictable.get inside the
+selection forms and concat (proved here, section named in each use text).
+Still bounded only (rac/C01.py): the list-of-integers form (constructor from rows + headers), scalar / length-1 broadcast on construction, DataFrame / path inputs,
+relabel, do, derived columns, concat of more than two tables, and the induction over whole operation histories (each proved operation keeps wf and agrees with the
+list-of-records model clause by clause; chaining them is an argument, not a solver step).
 """
 import ast
 import z3
 from z3 import And, Or, Not, If, Implies, Int, Ints, IntVal, BoolVal, ForAll, Exists, Const, Lambda, Select, Store
 
-from pyvc.front import select, SelectorError, OutOfSubset
-from pyvc.symex import Exec, State
-from pyvc.theories import TypePreds
-from pyvc.th_lists import Lists, Val, VAL, fresh_list, V, as_list_sv
+from pyvc.front import select, SelectorError, OutOfSubset, walk_no_defs
+from pyvc.symex import Exec, State, LoopSpec
+from pyvc.theories import TypePreds, ConcreteStr
+from pyvc.th_lists import Lists, Val, NONEV, VAL, fresh_list, V, as_list_sv
 from pyvc.th_tables import Tables, Key, KEY, fresh_table, wf, no_columns, nrows, column, same_table, key_of
 from pyvc.sv import SV, I, B, S, T, NONE, fresh_name, fresh_int
+from pyvc.th_tables2 import (Rows, Init, Concat, Concats, Slices, Deletes, Names, Updates, NK, SK, SP, name_list, named, PySlice, SLEN, SIDX, slice_axiom, CNT, cnt_def, count_lemmas, fresh_rowlist, rows_of, mask_list, rowmap, fresh_colmap, as_table, CLS,
+                              equally_long, same_columns, records_contract, empty_with_columns_contract, mask_contract, MASK_CLAUSES)
 
 PROP = 'C01'
 REPLAY_MODULE = 'rac.C01_ded'
@@ -72,6 +87,482 @@ class Dictable:
         if vnew.kind == 'val':
             return SV('rowmap', None, dom=t.dom, vals=Lambda([kv], vnew.t))
         raise OutOfSubset('dict comprehension with %s values' % vnew.kind)
+
+
+def ground_section(ctx, n0, rounds=2, only=None):
+    """the obligations of a section are replaced by their quantifier-free grounding (pyvc/ground.py: universal hypotheses instantiated over the
+    index terms of the query - a weakening of the hypotheses, so `unsat` still proves the clause, and a failing clause comes back `sat`)"""
+    from pyvc.ground import ground_obligation
+    for ob in ctx.obligations[n0:]:
+        if ob.kind != 'syntactic' and (only is None or only(ob.name)):
+            ground_obligation(ob, rounds=rounds)
+    ctx.trust('engine:obligations of the table sections are discharged on their grounding (universal hypotheses replaced by instances over the index terms of the query)')
+
+
+def _inline(m):
+    inline = {'_value': (m, m.func('_value'))}
+    for f in ('__len__', '__setitem__', 'get', '__getitem__', '__iter__', '__init__'):
+        inline['dictable.' + f] = (m, m.func('dictable.' + f))
+    return inline
+
+
+# ====================================================================================================== __iter__
+def iter_obligations(ctx, m):
+    """dictable.__iter__ (a generator: the loop appends every yielded value to a ghost list): over a rectangular table it yields one Dict per row, in
+    order, with the table's columns as keys and the row's cells as values.  This is the contract `Rows.iter_rows` hands to callers."""
+    fdef = m.func('dictable.__iter__')
+    loop = select(fdef, 'For#0')
+    n = Int('N')
+    t = fresh_table('self')
+    j = Int('j!it')
+    c = Const('c!it', Key)
+
+    def listed(y, k):
+        return [('one_row_per_position', y.t == k),
+                ('rows_have_the_columns_as_keys', ForAll([j], Implies(And(0 <= j, j < k), Select(y.doms, j) == t.dom))),
+                ('row_j_holds_the_jth_cell_of_every_column', ForAll([j, c], Implies(And(0 <= j, j < k, t.dom[c]), Select(Select(y.vals, j), c) == t.carr[c][j])))]
+
+    def inv(st, entry):
+        return listed(st.ghost['yielded'], st.ghost['__iter__.For0.k'])
+
+    def ghost_havoc(ex, st):
+        st.ghost['yielded'] = fresh_rowlist('yielded')
+
+    spec = LoopSpec('__iter__.For0', inv, ghost_havoc=ghost_havoc)
+    ex = Exec(m, [Rows(known=[(t, n)], iter_contract=False), Dictable(m), Tables(), Lists(), TypePreds()], loops={id(loop): spec}, inline=_inline(m), name='__iter__')
+    st = State(env={'self': t})
+    st.pc.append(wf(t, n))
+    st.ghost['yielded'] = fresh_rowlist('nil', 0)
+    outs = ex.run_function(st, 'dictable.__iter__', [t], {})
+    ctx.absorb(ex)
+    ctx.record_function(m, 'dictable.__iter__', fdef, ex.stmts_executed)
+    nret = 0
+    for out in outs:
+        hy = ex.facts + out.st.pc
+        if out.kind != 'return':
+            ctx.post('__iter__.never_raises_on_a_rectangular_table', hy, BoolVal(False), kind='safety')
+            continue
+        nret += 1
+        for cname, goal in listed(out.st.ghost['yielded'], nrows(t, n)):
+            ctx.post('__iter__.yields.' + cname, hy, goal)
+    if nret == 0:
+        raise OutOfSubset('__iter__ has no normal exit')
+    ctx.cover('__iter__.pre', [wf(t, n), n == 2, t.dom[key_of('a')], t.dom[key_of('b')]])
+
+
+# ====================================================================================================== __getitem__(list of booleans)
+def mask_obligations(ctx, m):
+    """dictable.__getitem__ for a list of booleans with one entry per row (the shape inc / exc hand over): the result keeps all columns, is rectangular
+    with count_true(mask, len) rows, and the row of every true entry i sits at position count_true(mask, i) - with the laws of count_true
+    (count_lemmas: ranks of true entries strictly increase, every position below the count is the rank of a true entry) that is: exactly the rows
+    whose entry is true, in order.  Callees by contract: __iter__ (proved above), zipper (C19), the constructor from records / ([], columns)."""
+    fdef = m.func('dictable.__getitem__')
+    comps = [c_ for c_ in walk_no_defs(fdef) if isinstance(c_, ast.ListComp) and len(c_.generators) == 1 and c_.generators[0].ifs]
+    if len(comps) != 1:
+        raise SelectorError('__getitem__: expected one filtered comprehension (rows kept by a boolean mask)')
+    comp = comps[0]
+    n = Int('N')
+    t = fresh_table('self')
+    item = mask_list('item')
+    M, marr = item.t, item.arrs[0]
+    nm = '__getitem__.mask.rows'
+    i, p = Ints('i!mk p!mk')
+    c = Const('c!mk', Key)
+    holder = {}
+
+    def inv(st, entry):
+        k, res = st.ghost[nm + '.k'], st.ghost[nm + '.res']
+        holder['ex'].fact(cnt_def(marr, k))
+        return [('length_is_the_number_of_true_entries_passed', And(res.t == CNT(marr, k), 0 <= res.t, res.t <= k)),
+                ('true_entries_passed_rank_below_the_length', ForAll([i], Implies(And(0 <= i, i < k, marr[i] != 0), And(0 <= CNT(marr, i), CNT(marr, i) < res.t)))),
+                ('every_kept_record_has_all_columns', ForAll([p], Implies(And(0 <= p, p < res.t), Select(res.doms, p) == t.dom))),
+                ('row_of_a_true_entry_sits_at_its_rank', ForAll([i, c], Implies(And(0 <= i, i < k, marr[i] != 0, t.dom[c]),
+                                                                                 Select(Select(res.vals, CNT(marr, i)), c) == t.carr[c][i])))]
+
+    spec = LoopSpec(nm, inv)
+    rows = Rows(known=[(t, n)])
+    ex = Exec(m, [rows, Dictable(m), Tables(), Lists(), TypePreds(extra={'is_arr': ()})], loops={id(comp): spec}, inline=_inline(m), name='__getitem__.mask')
+    holder['ex'] = ex
+    st = State(env={'self': t})
+    pre = [wf(t, n), M == nrows(t, n), M >= 0]           # M == 0: the `len(item) == 0` branch (a table without rows, or the item [])
+    st.pc += pre
+    ex.fact(cnt_def(marr, IntVal(0)))
+    outs = ex.run_function(st, 'dictable.__getitem__', [t, item], {})
+    ctx.absorb(ex)
+    ctx.record_function(m, 'dictable.__getitem__', fdef, ex.stmts_executed,
+                        excluded=['numpy array, dict_keys / dict_values / range items (converted to lists), callable items: bounded only'])
+    nret = 0
+    for out in outs:
+        hy = ex.facts + out.st.pc
+        if out.kind != 'return':
+            ctx.post('__getitem__.mask.never_raises_for_one_entry_per_row.%s' % out.val, hy, BoolVal(False), kind='safety')
+            continue
+        nret += 1
+        o = out.val
+        if o.kind != 'table':
+            raise OutOfSubset('mask selection does not return a table')
+        for cname, goal in zip(MASK_CLAUSES, mask_contract(t, n, marr, o)):        # the contract callers (C06: inc / exc) rely on, clause by clause
+            ctx.post('__getitem__.mask.' + cname, hy, goal)
+    if nret == 0:
+        raise OutOfSubset('mask selection has no returning path')
+    count_lemmas(ctx, '__getitem__.mask')
+    ctx.cover('__getitem__.mask.pre', pre + [n == 3, t.dom[key_of('a')], marr[0] == 1, marr[1] == 0, marr[2] == 1])
+    ctx.cover('__getitem__.mask.nothing_kept_reachable', pre + [n == 2, t.dom[key_of('a')], marr[0] == 0, marr[1] == 0])
+
+
+# ====================================================================================================== __getitem__: slice, column name, tuple of names
+def _getitem_run(ctx, m, label, item, pre=(), loops=None):
+    fdef = m.func('dictable.__getitem__')
+    n = Int('N')
+    t = fresh_table('self')
+    ex = Exec(m, [Slices(), Init(), Rows(known=[(t, n)]), GetItem(), Dictable(m), Tables(), Lists(), TypePreds(extra={'is_arr': ()})], loops=loops or {},
+              inline=_inline(m), name='__getitem__.' + label)
+    st = State(env={'self': t})
+    st.pc += [wf(t, n)] + list(pre)
+    outs = ex.run_function(st, 'dictable.__getitem__', [t, item], {})
+    ctx.absorb(ex)
+    ctx.record_function(m, 'dictable.__getitem__', fdef, ex.stmts_executed)
+    return ex, t, n, outs
+
+
+def slice_obligations(ctx, m):
+    """d[a:b:c]: every column is cut by the same slice object; the indices a slice selects depend on the slice and the length only, and all columns have one
+    length, so row j of the result is row slice_index(s, N, j) of the table in every column: the table stays rectangular and equals the sliced list of rows."""
+    s = Const('SLICE', PySlice)
+    ex, t, n, outs = _getitem_run(ctx, m, 'slice', SV('pyslice', s))
+    c = Const('c!sl', Key)
+    j = Int('j!sl2')
+    nret = 0
+    for out in outs:
+        hy = ex.facts + out.st.pc
+        if out.kind != 'return':
+            ctx.post('__getitem__.slice.never_raises.%s' % out.val, hy, BoolVal(False), kind='safety')
+            continue
+        nret += 1
+        o = out.val
+        hy = hy + [slice_axiom(s, n)]          # axiom instance at the common length (a table without columns has no column to take it from)
+        ctx.post('__getitem__.slice.keeps_all_columns', hy, ForAll([c], o.dom[c] == t.dom[c]))
+        ctx.post('__getitem__.slice.rectangular_with_the_sliced_number_of_rows', hy, wf(o, SLEN(s, n)))
+        ctx.post('__getitem__.slice.row_j_is_the_same_table_row_in_every_column', hy,
+                 ForAll([c, j], Implies(And(t.dom[c], 0 <= j, j < SLEN(s, n)), And(0 <= SIDX(s, n, j), SIDX(s, n, j) < n, o.carr[c][j] == t.carr[c][SIDX(s, n, j)]))))
+    if nret == 0:
+        raise OutOfSubset('slice selection has no returning path')
+    ctx.cover('__getitem__.slice.pre', [wf(t, n), n == 3, t.dom[key_of('a')], SLEN(s, 3) == 2])
+
+
+def column_obligations(ctx, m):
+    """d[name]: the stored column when the name is a column, KeyError otherwise (the contract `GetItem` hands to callers)"""
+    k = Const('KEY', Key)
+    ex, t, n, outs = _getitem_run(ctx, m, 'column', KEY(k))
+    nret = nraise = 0
+    for out in outs:
+        hy = ex.facts + out.st.pc
+        if out.kind == 'raise':
+            nraise += 1
+            ctx.post('__getitem__.column.raises_only_KeyError_and_only_for_a_missing_column', hy, And(BoolVal(out.val == 'KeyError'), Not(t.dom[k])), kind='safety')
+            continue
+        nret += 1
+        r = as_list_sv(out.val, VAL)
+        ctx.post('__getitem__.column.is_the_stored_column', hy, And(t.dom[k], r.t == t.clen[k], r.arrs[0] == t.carr[k]))
+    if nret == 0 or nraise == 0:
+        raise OutOfSubset('column access: expected a returning and a raising path')
+
+
+def names_obligations(ctx, m):
+    """d[[name_1, ..., name_k]] (k >= 1): dictable.__getitem__ -> dictattr.__getitem__ (inlined from _dictattr.py, is_rng from _as_list.py) -> the constructor with
+    keyword columns -> the constructor from a table.  The result has exactly the listed columns, each as it was: the projection keeps the rows."""
+    fdef = m.func('dictable.__getitem__')
+    md, ma = ctx.mod('_dictattr'), ctx.mod('_as_list')
+    inline = _inline(m)
+    inline['dictattr.__getitem__'] = (md, md.func('dictattr.__getitem__'))
+    inline['is_rng'] = (ma, ma.func('is_rng'))
+    n = Int('N')
+    t = fresh_table('self')
+    item = name_list('item')
+    ex = Exec(m, [Names(), Slices(), Init(), Rows(known=[(t, n)]), GetItem(), Dictable(m), Tables(), Lists(), TypePreds(extra={'is_arr': ()})], inline=inline,
+              name='__getitem__.names')
+    st = State(env={'self': t})
+    st.pc += [wf(t, n), item.t >= 1]
+    outs = ex.run_function(st, 'dictable.__getitem__', [t, item], {})
+    ctx.absorb(ex)
+    ctx.record_function(m, 'dictable.__getitem__', fdef, ex.stmts_executed)
+    ctx.record_function(md, 'dictattr.__getitem__', inline['dictattr.__getitem__'][1], ex.stmts_executed, excluded=['tuples of keys, dotted names: see C16'])
+    c = Const('c!nm', Key)
+    missing = Exists([c], And(named(item, c), Not(t.dom[c])))
+    nret = 0
+    for out in outs:
+        hy = ex.facts + out.st.pc
+        if out.kind == 'raise':
+            ctx.post('__getitem__.names.raises_only_KeyError_and_only_for_a_name_that_is_not_a_column', hy, And(BoolVal(out.val == 'KeyError'), missing), kind='safety')
+            continue
+        nret += 1
+        o = out.val
+        if o.kind != 'table':
+            raise OutOfSubset('projection does not return a table')
+        ctx.post('__getitem__.names.has_exactly_the_listed_columns', hy, And(Not(missing), ForAll([c], o.dom[c] == named(item, c))))
+        ctx.post('__getitem__.names.keeps_every_listed_column_as_it_is', hy, ForAll([c], Implies(named(item, c), And(o.clen[c] == t.clen[c], o.carr[c] == t.carr[c]))))
+        ctx.post('__getitem__.names.keeps_the_rows', hy, wf(o, n))
+    if nret == 0:
+        raise OutOfSubset('projection has no returning path')
+    ctx.cover('__getitem__.names.pre', [wf(t, n), n == 2, item.t == 1, item.arr[0] == key_of('a'), t.dom[key_of('a')], t.dom[key_of('b')]])
+
+
+def tuple_obligations(ctx, m):
+    """d[(name_1, ..., name_k)] for k = 1..3 column names: the list of the rows' key tuples, one per row, in row order - the key projection that
+    _listby (C02, C11) takes as its callee contract.  Key *functions* in the tuple (d[callable]) are not covered."""
+    for arity in (1, 2, 3):
+        ks = [Const('KEY%d' % i_, Key) for i_ in range(arity)]
+        ex, t, n, outs = _getitem_run(ctx, m, 'tuple%d' % arity, T([KEY(k_) for k_ in ks]))
+        j = Int('j!tp')
+        present = And(*[t.dom[k_] for k_ in ks])
+        nret = 0
+        for out in outs:
+            hy = ex.facts + out.st.pc
+            if out.kind == 'raise':
+                ctx.post('__getitem__.tuple%d.raises_only_KeyError_and_only_for_a_missing_column' % arity, hy, And(BoolVal(out.val == 'KeyError'), Not(present)), kind='safety')
+                continue
+            nret += 1
+            r = out.val
+            if r.kind != 'list' or r.f.get('ety') is None or len(r.arrs) != arity:
+                raise OutOfSubset('tuple projection does not return a list of %d-tuples' % arity)
+            ctx.post('__getitem__.tuple%d.one_key_tuple_per_row' % arity, hy, And(present, r.t == n))
+            ctx.post('__getitem__.tuple%d.jth_tuple_holds_the_jth_cells_of_the_named_columns' % arity, hy,
+                     ForAll([j], Implies(And(0 <= j, j < n), And(*[r.arrs[i_][j] == t.carr[ks[i_]][j] for i_ in range(arity)]))))
+        if nret == 0:
+            raise OutOfSubset('tuple projection has no returning path')
+
+
+# ====================================================================================================== deleting a column
+def delete_obligations(ctx, m):
+    """del d[name] (dictattr.__delitem__, inherited), del d.name (dictable.__delattr__) and d - name (dictattr.__sub__, inherited): the named column goes,
+    every other column is untouched, so the table stays rectangular; deleting a missing column raises KeyError (del) or is a no-op (-)."""
+    md = ctx.mod('_dictattr')
+    n = Int('N')
+    k = Const('KEY', Key)
+    c = Const('c!del', Key)
+
+    def others_untouched(a, b):
+        return ForAll([c], Implies(c != k, And(a.dom[c] == b.dom[c], a.clen[c] == b.clen[c], a.carr[c] == b.carr[c])))
+
+    runs = [('__delitem__', md, 'dictattr.__delitem__', 'dict', True), ('__delattr__', m, 'dictable.__delattr__', 'contract', True),
+            ('__sub__', md, 'dictattr.__sub__', 'contract', False)]
+    for label, mod_, qual, level, may_raise in runs:
+        fdef = mod_.func(qual)
+        t = fresh_table('self')
+        ex = Exec(mod_, [Deletes(level), Slices(), Tables(), Lists(), TypePreds()], inline={qual: (mod_, fdef)}, name=label)
+        st = State(env={'self': t})
+        st.pc.append(wf(t, n))
+        outs = ex.run_function(st, qual, [t, KEY(k)], {})
+        ctx.absorb(ex)
+        ctx.record_function(mod_, qual, fdef, ex.stmts_executed, excluded=['tuple paths, lists of names, dotted and underscore names: bounded only'])
+        nret = nraise = 0
+        for out in outs:
+            hy = ex.facts + out.st.pc
+            if out.kind == 'raise':
+                nraise += 1
+                ctx.post('%s.raises_only_KeyError_for_a_missing_column_and_leaves_the_table' % label, hy,
+                         And(BoolVal(out.val == 'KeyError' and may_raise), Not(t.dom[k]), same_table(out.st.env['self'], t)), kind='safety')
+                continue
+            nret += 1
+            r = out.st.env['self'] if may_raise else out.val
+            if r.kind != 'table':
+                raise OutOfSubset('%s does not yield a table' % label)
+            ctx.post('%s.the_named_column_is_gone' % label, hy, And(Not(r.dom[k]), t.dom[k]) if may_raise else Not(r.dom[k]))
+            ctx.post('%s.other_columns_untouched' % label, hy, others_untouched(r, t))
+            ctx.post('%s.table_stays_rectangular' % label, hy, wf(r, n))
+        if nret == 0 or (may_raise and nraise == 0):
+            raise OutOfSubset('%s: expected %s' % (label, 'a returning and a raising path' if may_raise else 'a returning path'))
+
+
+# ====================================================================================================== d1 + d2 (concat of two tables)
+def concat_obligations(ctx, m):
+    """dictable.__add__ -> dictable.concat(self, other) with as_list inlined, dict_concat and the constructor by their contracts: the result has the
+    union of the columns, len(d1) + len(d2) rows; the rows of d1 come first, then those of d2, each in order; a cell of a column the operand does
+    not have is None.  concat of more than two tables is the same code with a longer sum(): bounded only."""
+    ma = ctx.mod('_as_list')
+    inline = _inline(m)
+    for q in ('__add__', 'concat'):
+        inline['dictable.' + q] = (m, m.func('dictable.' + q))
+    inline['as_list'] = (ma, ma.func('as_list'))
+    n0, n1 = Ints('N0 N1')
+    t0, t1 = fresh_table('self'), fresh_table('other')
+    rows = Rows(known=[(t0, n0), (t1, n1)])
+    n_ob = len(ctx.obligations)
+    ex = Exec(m, [Concats(rows), Slices(), Init(), rows, Dictable(m), Tables(), Lists(), TypePreds(extra={'is_arr': ()})], inline=inline, name='__add__')
+    st = State(env={'self': t0})
+    pre = [wf(t0, n0), wf(t1, n1)]
+    st.pc += pre
+    outs = ex.run_function(st, 'dictable.__add__', [t0, t1], {})
+    ctx.absorb(ex)
+    ctx.record_function(m, 'dictable.__add__', inline['dictable.__add__'][1], ex.stmts_executed)
+    ctx.record_function(m, 'dictable.concat', inline['dictable.concat'][1], ex.stmts_executed, excluded=['other than two operands: bounded only'])
+    R0, R1 = nrows(t0, n0), nrows(t1, n1)
+    c = Const('c!cat', Key)
+    j = Int('j!cat')
+    nret = 0
+    for out in outs:
+        hy = ex.facts + out.st.pc
+        if out.kind != 'return':
+            ctx.post('__add__.never_raises.%s' % out.val, hy, BoolVal(False), kind='safety')
+            continue
+        nret += 1
+        r = out.val
+        if r.kind != 'table':
+            raise OutOfSubset('d1 + d2 does not return a table')
+        ctx.post('__add__.columns_are_the_union', hy, ForAll([c], r.dom[c] == Or(t0.dom[c], t1.dom[c])))
+        ctx.post('__add__.rectangular_with_the_rows_of_both', hy, wf(r, R0 + R1))
+        ctx.post('__add__.rows_of_the_left_operand_come_first_in_order_absent_cells_None', hy,
+                 ForAll([c, j], Implies(And(r.dom[c], 0 <= j, j < R0), r.carr[c][j] == If(t0.dom[c], t0.carr[c][j], NONEV))))
+        ctx.post('__add__.rows_of_the_right_operand_follow_in_order_absent_cells_None', hy,
+                 ForAll([c, j], Implies(And(r.dom[c], R0 <= j, j < R0 + R1), r.carr[c][j] == If(t1.dom[c], t1.carr[c][j - R0], NONEV))))
+    if nret == 0:
+        raise OutOfSubset('d1 + d2 has no returning path')
+    ground_section(ctx, n_ob)
+    ka, kb = key_of('a'), key_of('b')
+    ctx.cover('__add__.pre_with_an_absent_column', pre + [n0 == 2, n1 == 1, t0.dom[ka], t0.dom[kb], t1.dom[ka], Not(t1.dom[kb])])
+
+
+# ====================================================================================================== update
+def update_obligations(ctx, m):
+    """dictable.update(other) for a mapping whose columns all fit (they have len(self) entries, or self has no column yet and they are equally long): every
+    column of other is stored as it is, the other columns of self are untouched, the table stays rectangular.  The loop over other.items() carries the
+    invariant 'the keys passed so far are stored, the rest of the table is as before'; self[k] = v by the contract of __setitem__."""
+    fdef = m.func('dictable.update')
+    loop = select(fdef, 'For#0')
+    n, L = Int('N'), Int('L')
+    t0 = fresh_table('self')
+    other = fresh_colmap('other')
+    O = other.dom
+    c = Const('c!up', Key)
+    rows_now = nrows(t0, n)
+    final_rows = If(no_columns(t0), L, n)
+
+    def passed(cc, p):
+        return And(O[cc], SP(O, cc) < p)
+
+    def clauses(t, p):
+        return [('keys_passed_are_stored_as_they_are', ForAll([c], Implies(passed(c, p), And(t.dom[c], t.clen[c] == other.clen[c], t.carr[c] == other.carr[c])))),
+                ('the_rest_is_as_before', ForAll([c], Implies(Not(passed(c, p)), And(t.dom[c] == t0.dom[c], t.clen[c] == t0.clen[c], t.carr[c] == t0.carr[c])))),
+                ('position_in_range', And(0 <= p, p <= NK(O)))]
+
+    def inv(st, entry):
+        return clauses(st.env['self'], st.ghost['update.For0.k'])
+
+    spec = LoopSpec('update.For0', inv)
+    n_ob = len(ctx.obligations)
+    ex = Exec(m, [Updates(final_rows), Init(), Tables(), Lists(), TypePreds()], loops={id(loop): spec}, inline=_inline(m) | {'dictable.update': (m, fdef)}, name='update')
+    st = State(env={'self': t0})
+    pre = [wf(t0, n), wf(other, L), Or(no_columns(t0), L == n)]
+    st.pc += pre
+    outs = ex.run_function(st, 'dictable.update', [t0, other], {})
+    ctx.absorb(ex)
+    ctx.record_function(m, 'dictable.update', fdef, ex.stmts_executed, excluded=['values that need broadcasting or do not fit (ValueError): see __setitem__'])
+    nret = 0
+    for out in outs:
+        hy = ex.facts + out.st.pc
+        if out.kind != 'return':
+            ctx.post('update.never_raises_when_the_columns_fit.%s' % out.val, hy, BoolVal(False), kind='safety')
+            continue
+        nret += 1
+        t = out.st.env['self']
+        ctx.post('update.every_column_of_other_is_stored_as_it_is', hy, ForAll([c], Implies(O[c], And(t.dom[c], t.clen[c] == other.clen[c], t.carr[c] == other.carr[c]))))
+        ctx.post('update.other_columns_untouched', hy, ForAll([c], Implies(Not(O[c]), And(t.dom[c] == t0.dom[c], t.clen[c] == t0.clen[c], t.carr[c] == t0.carr[c]))))
+        ctx.post('update.table_stays_rectangular', hy, wf(t, If(no_columns(other), n, final_rows)))
+    if nret == 0:
+        raise OutOfSubset('update has no returning path')
+    ground_section(ctx, n_ob, rounds=3)
+    ctx.cover('update.pre', pre + [n == 2, t0.dom[key_of('a')], O[key_of('b')]])
+
+
+# ====================================================================================================== the constructor
+def _new_table():
+    return SV('table', None, dom=z3.K(Key, False), clen=z3.K(Key, IntVal(0)), carr=z3.Array(fresh_name('new_col'), Key, z3.ArraySort(z3.IntSort(), Val)),
+              cls='dictable', fresh=True)
+
+
+def constructor_obligations(ctx, m):
+    """dictable.__init__ with _data_columns_as_dict, _value and as_list inlined from the source, for the argument shapes the selection forms and
+    concat use: a dict of equally long lists, ([], column names), a list of records (dict_concat by its contract), and no argument.  These are
+    the contracts `Rows.call_value` hands to callers of `type(self)(...)`."""
+    fdef = m.func('dictable.__init__')
+    ma = ctx.mod('_as_list')
+    inline = _inline(m)
+    inline['_data_columns_as_dict'] = (m, m.func('_data_columns_as_dict'))
+    inline['as_list'] = (ma, ma.func('as_list'))
+    t = fresh_table('cols_of')
+    cm = fresh_colmap('data')
+    rl = fresh_rowlist('data')
+    shapes = [('columns', cm, NONE, [equally_long(cm)], lambda o: [('stores_exactly_the_given_columns', same_columns(o, cm))]),
+              ('empty', SV('list', IntVal(0), ety=None, arrs=None), SV('tkeys', None, of=t), [],
+               lambda o: [('has_exactly_the_given_columns_and_no_row_%d' % i_, f) for i_, f in enumerate(empty_with_columns_contract(t.dom, o))]),
+              ('records', rl, NONE, [rl.t >= 0],
+               lambda o: [('no_record_no_column', records_contract(rl, o)[0]), ('one_key_set_columns_list_the_records_in_order', records_contract(rl, o)[1]),
+                          ('several_key_sets_union_with_None_for_absent_cells', records_contract(rl, o)[2])]),
+              ('nothing', NONE, NONE, [], lambda o: [('has_no_column', no_columns(o))]),
+              ('keywords', NONE, NONE, [equally_long(cm)], lambda o: [('stores_exactly_the_given_columns', same_columns(o, cm))])]
+    for label, data, columns, pre, posts in shapes:
+        ex = Exec(m, [Init(), Rows(), Dictable(m), Tables(), Lists(), TypePreds(extra={'is_arr': ()}), ConcreteStr(m)], inline=inline, name='constructor.' + label)
+        st = State()
+        st.pc += pre
+        outs = ex.run_function(st, 'dictable.__init__', [_new_table(), data, columns], {'**': cm} if label == 'keywords' else {})
+        ctx.absorb(ex)
+        ctx.record_function(m, 'dictable.__init__', fdef, ex.stmts_executed, excluded=['keyword columns, scalar / length-1 broadcast on construction: bounded only'])
+        ctx.record_function(m, '_data_columns_as_dict', inline['_data_columns_as_dict'][1], ex.stmts_executed,
+                            excluded=['paths, DataFrames, cursors, rows + headers, lists of pairs / of lists: bounded only'])
+        nret = 0
+        for out in outs:
+            hy = ex.facts + out.st.pc
+            if out.kind != 'return':
+                ctx.post('constructor.%s.never_raises.%s' % (label, out.val), hy, BoolVal(False), kind='safety')
+                continue
+            nret += 1
+            for cname, goal in posts(out.st.env['self']):
+                ctx.post('constructor.%s.%s' % (label, cname), hy, goal)
+        if nret == 0:
+            raise OutOfSubset('constructor (%s) has no returning path' % label)
+        ctx.cover('constructor.%s.pre' % label, pre)
+
+
+# ====================================================================================================== dict_concat
+def dict_concat_obligations(ctx, m):
+    """dict_concat(list of records), whole body with as_list inlined: {} for no record; the one-record shortcut; records with one common key set
+    (sorted items, transposed, zipped with the sorted keys); otherwise the union of the key sets with d.get(key).  Postcondition = the contract
+    the constructor section uses (`records_contract`)."""
+    fdef = m.func('dict_concat')
+    ma = ctx.mod('_as_list')
+    inline = {'dict_concat': (m, fdef), 'as_list': (ma, ma.func('as_list'))}
+    rl = fresh_rowlist('dicts')
+    rl.f['absent'] = z3.Array('ABSENT', z3.IntSort(), Val)         # what record j's own get() returns for a missing key (None for a Dict)
+    n0 = len(ctx.obligations)
+    ex = Exec(m, [Concat(), Init(dict_concat=None), Rows(), Lists(), TypePreds()], inline=inline, name='dict_concat')
+    st = State()
+    st.pc.append(rl.t >= 0)
+    outs = ex.run_function(st, 'dict_concat', [rl], {})
+    ctx.absorb(ex)
+    ctx.record_function(m, 'dict_concat', fdef, ex.stmts_executed)
+    ctx.record_function(ma, 'as_list', inline['as_list'][1], ex.stmts_executed, excluded=['arguments other than a tuple holding one list: see C19'])
+    nret = 0
+    for out in outs:
+        hy = ex.facts + out.st.pc
+        if out.kind != 'return':
+            ctx.post('dict_concat.never_raises.%s' % out.val, hy, BoolVal(False), kind='safety')
+            continue
+        nret += 1
+        o = out.val
+        if o.kind != 'colmap':
+            raise OutOfSubset('dict_concat returns %s' % o.kind)
+        none_, same, union = records_contract(rl, o)
+        ctx.post('dict_concat.no_record_no_key', hy, none_)
+        ctx.post('dict_concat.one_key_set.column_k_lists_record_k_in_order', hy, same)
+        ctx.post('dict_concat.several_key_sets.union_of_keys_and_None_for_absent', hy, union)
+    ground_section(ctx, n0)
+    if nret < 4:
+        raise OutOfSubset('dict_concat: expected the four returning branches (none, one record, one key set, several key sets), got %d' % nret)
+    j = Int('j!cv')
+    ka, kb = key_of('a'), key_of('b')
+    ab = Store(Store(z3.K(Key, False), ka, True), kb, True)
+    ctx.cover('dict_concat.one_key_set_reachable', [rl.t == 2, Select(rl.doms, 0) == ab, Select(rl.doms, 1) == ab])
+    ctx.cover('dict_concat.several_key_sets_reachable', [rl.t == 2, Select(Select(rl.doms, 0), ka), Not(Select(Select(rl.doms, 1), ka))])
 
 
 def build(ctx):
@@ -192,7 +683,18 @@ def build(ctx):
         if nret == 0:
             raise OutOfSubset('integer row access has no returning path')
     ctx.guarded('__getitem__.int', row_section)
-    ctx.trust('rectangularity of tables produced by operations other than __setitem__ (constructor forms, masks, concat, ...) is checked by the bounded stand-in only')
+    ctx.guarded('__iter__', lambda: iter_obligations(ctx, m))
+    ctx.guarded('__getitem__.mask', lambda: mask_obligations(ctx, m))
+    ctx.guarded('__getitem__.slice', lambda: slice_obligations(ctx, m))
+    ctx.guarded('__getitem__.column', lambda: column_obligations(ctx, m))
+    ctx.guarded('__getitem__.tuple', lambda: tuple_obligations(ctx, m))
+    ctx.guarded('__getitem__.names', lambda: names_obligations(ctx, m))
+    ctx.guarded('delete', lambda: delete_obligations(ctx, m))
+    ctx.guarded('update', lambda: update_obligations(ctx, m))
+    ctx.guarded('__add__', lambda: concat_obligations(ctx, m))
+    ctx.guarded('constructor', lambda: constructor_obligations(ctx, m))
+    ctx.guarded('dict_concat', lambda: dict_concat_obligations(ctx, m))
+    ctx.trust('the induction over operation histories (every proved operation keeps wf and its model clause; chaining is an argument) and the operations listed as bounded only in the module docstring')
 
     # ------------------------------------------------------------------ frame: operations that return a new object never alter their operands
     def frame_section():
